@@ -55,6 +55,8 @@ def shards(tier):
         out.append({'level': 'B', 'n': n, 'lo': i, 'hi': min(len(shp), i + per), 'tier': tier})
     if tier == 'thorough':
         out.append({'level': 'U', 'tier': tier})
+    for gid in universe.ALIAS_GIDS:
+        out.append({'level': 'G', 'gid': gid, 'tier': tier})
     return out
 
 
@@ -178,7 +180,14 @@ def unicode_strings():
 def run_shard(shard):
     res = c01.new_res()
     tier = shard.get('tier', 'quick')
-    if shard['level'] == 'A':
+    if shard['level'] == 'G':
+        program = universe.alias_program(shard['gid'])
+        res['cov']['programs'] += 1
+        cases = c01.cases_G(shard['gid'], tier)
+        run_program(program, cases, res, configs(tier))
+        res['cov']['aliased_graphs'] = len(cases)
+        res['samples'].append({'program': program, 'case': cases[0][6]})
+    elif shard['level'] == 'A':
         at = c01.atom_by_id(shard['atom'])
         program = universe.program_for(at, shard['pos'])
         res['cov']['programs'] += 1
@@ -229,6 +238,11 @@ def replay(case):
         v = tagged.dec(case['value'])
         args, ret, ih, oh = universe.embed(case['pos'], at, v)
         site = '%s|%s|%s' % (case['atom'], case['pos'], c01.vlabel(case['label']))
+    elif case['level'] == 'G':
+        program = universe.alias_program(case['gid'])
+        args = tagged.dec(case['args'])
+        ret = args[0]
+        site = 'G|%s' % case['gid']
     elif case['level'] == 'B':
         shape = c01._tuplify(case['shape'])
         program, root = universe.shape_program(shape, case['style'])
